@@ -31,10 +31,15 @@ type scenario struct {
 	Kind   string `json:"kind"`
 	Moment string `json:"moment"`
 	Form   string `json:"form"`
-	Rand   int64  `json:"rand,omitempty"` // != 0: a random-root case with this seed
+	Rand   int64  `json:"rand,omitempty"`  // != 0: a random-root case with this seed
+	SMode  string `json:"smode,omitempty"` // staging-root scenarios: mutagen | neighboring | internal
+	Pre    string `json:"pre,omitempty"`   // what already sits at the staging root path
 }
 
 func (s *scenario) toMap() map[string]any {
+	if s.SMode != "" {
+		return map[string]any{"op": s.Op, "smode": s.SMode, "pre": s.Pre}
+	}
 	m := map[string]any{"op": s.Op, "pos": s.Pos, "kind": s.Kind, "moment": s.Moment, "form": s.Form}
 	if s.Rand != 0 {
 		m["rand"] = s.Rand
@@ -158,7 +163,109 @@ func (ew *escapeWorld) stageAndReceive(paths []string, contents [][]byte, betwee
 		"staged": st, "recverr": rrec["err"]}
 }
 
+// runStagingScenario: something already sits at the staging root path (a link to a
+// directory outside or inside the root, to a file, to nothing; a regular file; a
+// leftover directory, possibly with prefix entries that are links) when the store
+// is first used. Stage, reception, Transition and Shutdown follow as far as the
+// scenario's operation says.
+func runStagingScenario(c *vlib.Ctx, sc *scenario) {
+	sm := map[string]string{"mutagen": "", "neighboring": "neighboring", "internal": "internal"}[sc.SMode]
+	w, err := newWorldOpts(c, false, "tws", Unlimited, core.SymbolicLinkMode_SymbolicLinkModePortable, 11,
+		worldOpts{maxFile: Unlimited, stageMode: sm})
+	if err != nil {
+		vlib.Fatal("cannot create endpoint: %v", err)
+	}
+	defer w.close()
+	canary := filepath.Join(w.dir, "canary")
+	A, X := contentBytes(11, "c1"), contentBytes(11, "c2")
+	writeFixed(filepath.Join(w.root, "a"), A)
+	writeFixed(filepath.Join(w.root, "in", "keep"), []byte("inside"))
+	writeFixed(filepath.Join(canary, "S", "keep"), []byte("outside staging look-alike"))
+	writeFixed(filepath.Join(canary, "P", "keep"), []byte("outside prefix look-alike"))
+	writeFixed(filepath.Join(canary, "X"), []byte("a plain file in the canary"))
+	for _, p := range []string{"a", "n", "in/keep"} {
+		w.addPath(p)
+	}
+	xd, _ := hex.DecodeString(sha1Bytes(X))
+	link := func(target, at string) {
+		if err := os.Symlink(target, at); err != nil {
+			vlib.Fatal("plant %s: %v", at, err)
+		}
+	}
+	switch sc.Pre {
+	case "absent":
+	case "dir":
+		os.Mkdir(w.staging, 0o700)
+	case "link_out":
+		link(filepath.Join(canary, "S"), w.staging)
+	case "link_in":
+		link(filepath.Join(w.root, "in"), w.staging)
+	case "link_file":
+		link(filepath.Join(canary, "X"), w.staging)
+	case "dangling":
+		link(filepath.Join(canary, "nowhere"), w.staging)
+	case "file":
+		os.WriteFile(w.staging, []byte("not a directory"), 0o600)
+	case "prefix_link":
+		os.Mkdir(w.staging, 0o700)
+		link(filepath.Join(canary, "P"), filepath.Join(w.staging, hex.EncodeToString(xd[:1])))
+		link(filepath.Join(canary, "P"), filepath.Join(w.staging, "00"))
+	default:
+		vlib.Fatal("unknown staging pre-state %q", sc.Pre)
+	}
+	rec := map[string]any{"ev": "Escape", "in": sc.toMap()}
+	rec["canary0"] = metaList(canary)
+	watch, err := watchCanary(canary)
+	if err != nil {
+		vlib.Fatal("inotify: %v", err)
+	}
+	srec := map[string]any{}
+	w.doScan(srec)
+	rec["scanDisk"], rec["scanErr"], rec["snap"] = srec["disk0"], srec["err"], srec["snap"]
+	rec["disk0"] = w.disk()
+	rec["sroot0"] = map[string]any{"kind": w.stagingRootKind(), "prefixLink": w.stagingPrefixLink()}
+	stage := map[string]any{}
+	w.doStage(stage, []string{"n"}, [][]byte{xd}, map[string][]byte{"n": X})
+	ret := append([]string{}, w.pending...)
+	staged := []any{}
+	recvErr := ""
+	if sc.Op != "stage_init" {
+		rrec := map[string]any{}
+		w.doRecv(rrec, nil)
+		recvErr, _ = rrec["err"].(string)
+	}
+	have := stagedPaths(w.store())
+	for _, p := range ret {
+		staged = append(staged, have[p])
+	}
+	rec["stage"] = map[string]any{"req": encPaths([]string{"n"}), "err": stage["err"], "ret": encPaths(ret), "sigs": stage["sigs"],
+		"staged": staged, "recverr": recvErr}
+	if sc.Op == "stage_finalize" {
+		trec := map[string]any{}
+		w.runTransition(trec, []*core.Change{{Path: "n", New: fileEntry(xd, false)}})
+		rec["trans"] = map[string]any{"chg": trec["chg"], "err": trec["err"], "results": trec["results"],
+			"problems": trec["problems"], "missing": trec["missing"]}
+		rec["disk1"] = trec["disk1"]
+		ep := w.ep
+		w.guard(func() { ep.Shutdown() })
+		w.ep = nil
+	}
+	rec["sroot1"] = map[string]any{"kind": w.stagingRootKind(), "prefixLink": w.stagingPrefixLink()}
+	rec["hang"] = w.hung
+	rec["events"] = watch.drain()
+	rec["canary1"] = metaList(canary)
+	c.Emit(rec)
+	c.Eval()
+	if sc.Pre != "absent" && sc.Pre != "dir" {
+		c.NonTrivial(fmt.Sprint(sc.toMap()))
+	}
+}
+
 func runScenario(c *vlib.Ctx, sc *scenario) {
+	if sc.SMode != "" {
+		runStagingScenario(c, sc)
+		return
+	}
 	if sc.Rand != 0 {
 		runRandomEscape(c, sc)
 		return
@@ -514,7 +621,7 @@ func runEscape(c *vlib.Ctx) error {
 	n := 0
 	for _, b := range c.ReadBehaviours() {
 		sc := &scenario{Op: asString(b["op"]), Pos: asInt(b["pos"]), Kind: asString(b["kind"]),
-			Moment: asString(b["moment"]), Form: asString(b["form"])}
+			Moment: asString(b["moment"]), Form: asString(b["form"]), SMode: asString(b["smode"]), Pre: asString(b["pre"])}
 		key := fmt.Sprint(sc.toMap())
 		if seen[key] {
 			continue
